@@ -48,13 +48,14 @@ var recSvc = ev.New(prop, "service-hostile",
 		"requests routed to upstream clients whose server is the harness answering with hostile replies (socks5/http/ss2022 TCP, socks5/none/ss2022 UDP); requests whose route "+
 		"needs a DNS lookup answered by hostile DNS-over-TCP replies. After every operation the canary tunnel must echo; after every batch a fresh SOCKS5 CONNECT, a direct-server "+
 		"connection and a UDP exchange must work. Non-trivial: the operation reached a listener and (for via/dns) the hostile upstream was actually consulted; distinct key = kind + listener + build + close mode").
+	Require("kind:http-origin", "origin-consulted", "reused:server-shorts", "reused:client-shorts").
 	Require("kind:trunc", "kind:tcp", "kind:udp", "kind:via-tcp", "kind:via-udp", "kind:dns", "kind:flood", "flood:route-reject", "upstream-consulted", "dns-consulted",
 		"udp-batch:no", "udp-batch:sendmmsg", "proto:s5", "proto:http", "proto:none", "proto:ss128", "proto:ss256", "proto:ssfb", "proto:direct")
 
 // ---- plan (journaled as JSON)
 
 type svcOp struct {
-	Kind      string   `json:"kind"`            // tcp | udp | via-tcp | via-udp | dns
+	Kind      string   `json:"kind"`            // tcp | udp | via-tcp | via-udp | dns | trunc | flood | http-origin
 	Listener  string   `json:"listener"`        // key into env.ports
 	Build     string   `json:"build"`           // raw | ss-tcp | ss-udp
 	Sel       uint8    `json:"sel,omitempty"`   // ss2022 builder selector
@@ -65,6 +66,7 @@ type svcOp struct {
 	ReplyMode string   `json:"replyMode,omitempty"`
 	ReplySel  uint8    `json:"replySel,omitempty"`
 	Note      string   `json:"note,omitempty"`
+	Shorts    []string `json:"shorts,omitempty"`  // trunc (round 6): hex datagrams of 0..8 bytes, each sent right after a genuine datagram on the same socket
 	FloodMs   int      `json:"floodMs,omitempty"` // flood: duration
 	Sockets   int      `json:"sockets,omitempty"` // flood: number of source sockets
 }
@@ -133,8 +135,11 @@ func (e *evilUDP) serve() {
 		if f == nil {
 			continue
 		}
-		for _, d := range f(append([]byte(nil), buf[:n]...)) {
+		for i, d := range f(append([]byte(nil), buf[:n]...)) {
 			_, _ = e.c.WriteToUDPAddrPort(d, from)
+			if i%32 == 31 {
+				time.Sleep(time.Millisecond) // long reply sequences: do not overrun the receiving socket's buffer
+			}
 		}
 	}
 }
@@ -786,6 +791,19 @@ func (env *svcEnv) canaryFull() error {
 func unhex(s string) []byte { b, _ := hex.DecodeString(s); return b }
 
 func (env *svcEnv) buildStream(op svcOp) []byte {
+	if op.Kind == "http-origin" {
+		// a well-formed plain request (form op.Sel) for the harness-owned hostile origin; its port is only known at run time
+		host := env.evil.ln.Addr().String()
+		req := strings.ReplaceAll(originForms[op.Sel&7], "example.com", host)
+		if strings.HasPrefix(op.Listener, "httpauth") {
+			if op.Sel&7 == 5 {
+				req = strings.Replace(req, "\r\n\r\n", "\r\n"+basic("alice", "secret")+"\r\n", 1)
+			} else {
+				req = strings.ReplaceAll(req, "\r\nHost: "+host+"\r\n", "\r\nHost: "+host+"\r\n"+basic("alice", "secret"))
+			}
+		}
+		return []byte(req)
+	}
 	data := unhex(op.Data[0])
 	if op.Build != "ss-tcp" {
 		return data
@@ -833,6 +851,27 @@ func (env *svcEnv) installReply(op svcOp) {
 	}
 	env.evilDNS.setScript(func([]byte) []byte { return reply })
 	switch op.ReplyMode {
+	case "seq", "assoc-seq":
+		// round 6: a sequence of reply datagrams ([len u16][bytes] records) - genuine replies alternating with datagrams of 0..8
+		// bytes - so that each short one lands in the session's receive buffer right behind an earlier valid packet
+		var seq [][]byte
+		nshort := int64(0)
+		for rest := reply; len(rest) >= 2; {
+			n := min(takeLen(&rest), len(rest))
+			seq = append(seq, rest[:n])
+			if n <= 8 {
+				nshort++
+			}
+			rest = rest[n:]
+		}
+		if op.ReplyMode == "assoc-seq" {
+			ap := env.evilU.c.LocalAddr().(*net.UDPAddr).AddrPort()
+			env.evil.setScript(func([]byte) []byte { return cat([]byte{5, 0, 5, 0, 0}, socksAddrIP(ap.Addr(), ap.Port())) })
+		}
+		env.evilU.setScript(func([]byte) [][]byte {
+			recSvc.Label("reused:client-shorts", nshort)
+			return seq
+		})
 	case "assoc": // a well-formed UDP ASSOCIATE reply pointing at the hostile UDP peer, which answers with the reply bytes
 		ap := env.evilU.c.LocalAddr().(*net.UDPAddr).AddrPort()
 		env.evil.setScript(func([]byte) []byte { return cat([]byte{5, 0, 5, 0, 0}, socksAddrIP(ap.Addr(), ap.Port())) })
@@ -869,11 +908,11 @@ func (env *svcEnv) run(op svcOp) (reached, consulted bool) {
 		return
 	}
 	evilBefore := env.evil.hits.Load() + env.evilU.hits.Load() + env.evilDNS.hits.Load()
-	if strings.HasPrefix(op.Kind, "via") || op.Kind == "dns" {
+	if strings.HasPrefix(op.Kind, "via") || op.Kind == "dns" || op.Kind == "http-origin" {
 		env.installReply(op)
 	}
 	switch op.Kind {
-	case "tcp", "via-tcp", "dns":
+	case "tcp", "via-tcp", "dns", "http-origin":
 		c, err := net.DialTimeout("tcp4", fmt.Sprintf("127.0.0.1:%d", port), 5*time.Second)
 		if err != nil {
 			return
@@ -948,6 +987,17 @@ func (env *svcEnv) run(op svcOp) (reached, consulted bool) {
 				}
 			}
 		}
+		// round 6: datagrams of 0..8 bytes, each right after a genuine datagram from the same socket: the listener's pooled
+		// receive buffers hold valid packets of this very session when the short ones arrive
+		for i, h := range op.Shorts {
+			_, _ = u.Write(pkts[i%len(pkts)])
+			_, _ = u.Write(unhex(h))
+			sent += 2
+			if i%32 == 31 {
+				time.Sleep(time.Millisecond)
+			}
+		}
+		recSvc.Label("reused:server-shorts", int64(len(op.Shorts)))
 		recSvc.Label("trunc-datagrams", sent)
 		_ = u.SetReadDeadline(time.Now().Add(30 * time.Millisecond))
 		buf := make([]byte, 65536)
@@ -1103,9 +1153,77 @@ func getPools() *seedPools {
 	return &pools
 }
 
+var (
+	originOnce   sync.Once
+	originFormsC []uint8
+	originsC     [][]byte
+)
+
+var (
+	originByClass    map[string][]int
+	originClassNames []string
+)
+
+func originSeedsCached() ([]uint8, [][]byte) {
+	originOnce.Do(func() {
+		originFormsC, originsC = originSeeds()
+		originByClass = map[string][]int{}
+		for i := range originsC {
+			for _, c := range originClasses(int(originFormsC[i]), originsC[i]) {
+				if originByClass[c] == nil {
+					originClassNames = append(originClassNames, c)
+				}
+				originByClass[c] = append(originByClass[c], i)
+			}
+		}
+		sort.Strings(originClassNames)
+	})
+	return originFormsC, originsC
+}
+
 func pick(rt *rapid.T, pool [][]byte, label string) (int, []byte) {
 	i := rapid.IntRange(0, len(pool)-1).Draw(rt, label)
 	return i, pool[i]
+}
+
+// svcShorts is the list of 0..8-byte datagrams used at service level: every shortDatagrams entry of 5..8 bytes and every
+// step-th one of the exhaustive 0..4-byte strings, starting at off.
+func svcShorts(off, step int) [][]byte {
+	var out [][]byte
+	for i, d := range shortDatagrams() {
+		if len(d) >= 5 || len(d) == 0 || (i+off)%step == 0 {
+			out = append(out, d)
+		}
+	}
+	return out
+}
+
+func hexAll(bs [][]byte) []string {
+	out := make([]string, len(bs))
+	for i, b := range bs {
+		out[i] = hex.EncodeToString(b)
+	}
+	return out
+}
+
+// seqReply encodes a reply sequence for the hostile UDP upstream: a genuine reply of the protocol (source = src, an IP
+// address as every reply carries), then a short datagram, and so on.
+func seqReply(proto string, src []byte, shorts [][]byte) []byte {
+	valid := cat(src, []byte("genuine reply"))
+	if proto == "s5" {
+		valid = cat([]byte{0, 0, 0}, valid)
+	}
+	var out []byte
+	for _, d := range shorts {
+		out = append(out, rawRec(valid)...)
+		out = append(out, rawRec(d)...)
+	}
+	return out
+}
+
+// originOp builds a plain-HTTP request (form) through an HTTP proxy listener for the harness-owned hostile origin, which answers with reply.
+func originOp(listener string, form uint8, reply []byte, closeMode string) svcOp {
+	return svcOp{Kind: "http-origin", Listener: listener, Build: "raw", Sel: form & 7, Data: []string{""}, Reply: hex.EncodeToString(reply), Close: closeMode, Note: originFormNames[form&7]}
 }
 
 // truncOp builds a "truncated replay on established session" operation for a UDP listener: three genuine datagrams
@@ -1166,11 +1284,40 @@ func genFlood(rt *rapid.T, ms int) svcOp {
 func genOp(rt *rapid.T) svcOp {
 	p := getPools()
 	op := svcOp{Build: "raw"}
-	kind := rapid.SampledFrom([]string{"tcp", "tcp", "tcp", "tcp", "udp", "udp", "udp", "via-tcp", "via-tcp", "via-udp", "dns", "trunc"}).Draw(rt, "kind")
+	kind := rapid.SampledFrom([]string{"tcp", "tcp", "tcp", "tcp", "udp", "udp", "udp", "via-tcp", "via-tcp", "via-udp", "dns", "trunc", "http-origin", "http-origin"}).Draw(rt, "kind")
 	op.Kind = kind
 	if kind == "trunc" {
-		l := rapid.SampledFrom([]string{"ss128/udp", "ss128/udpmm", "ss256/udp", "ss256/udp", "ss128/udp", "s5/udp", "s5/udpmm", "none/udp", "none/udpmm", "direct/udp"}).Draw(rt, "truncListener")
-		return truncOp(l, rapid.Uint64().Draw(rt, "truncSid"), rapid.SampledFrom([]uint64{0, 1, 200, 1 << 32, 1<<63 - 2}).Draw(rt, "truncPid"), genSvcAddr(rt))
+		l := rapid.SampledFrom([]string{"ss128/udp", "ss128/udpmm", "ss256/udp", "ss256/udp", "ss128/udp", "s5/udp", "s5/udpmm", "none/udp", "none/udpmm", "direct/udp", "s5/udp", "none/udpmm", "direct/udpmm"}).Draw(rt, "truncListener")
+		op := truncOp(l, rapid.Uint64().Draw(rt, "truncSid"), rapid.SampledFrom([]uint64{0, 1, 200, 1 << 32, 1<<63 - 2}).Draw(rt, "truncPid"), genSvcAddr(rt))
+		if !strings.HasPrefix(l, "ss") { // round 6: short datagrams behind genuine ones (plain-text protocols; ss2022 has the prefix sweep above)
+			op.Shorts = hexAll(svcShorts(rapid.IntRange(0, 10).Draw(rt, "shortOff"), 11))
+			for i := rapid.IntRange(0, 6).Draw(rt, "nRandShorts"); i > 0; i-- {
+				op.Shorts = append(op.Shorts, hex.EncodeToString(rapid.SliceOfN(rapid.Byte(), 0, 8).Draw(rt, "randShort")))
+			}
+		}
+		return op
+	}
+	if kind == "http-origin" {
+		// round 6: a well-formed plain request through an HTTP proxy listener; the origin (harness) answers with a reply of the
+		// hostile-origin seed list, as it is or mutated
+		forms, origins := originSeedsCached()
+		// class first, then a seed of that class: the rare classes (a redirect without Location, a body on 304, ...) are drawn as
+		// often as the common ones
+		cls := rapid.SampledFrom(originClassNames).Draw(rt, "originClass")
+		i := rapid.SampledFrom(originByClass[cls]).Draw(rt, "origin")
+		reply := origins[i]
+		if len(reply) > 20000 {
+			reply = reply[:20000]
+		}
+		if rapid.IntRange(0, 2).Draw(rt, "mutateOrigin") == 0 {
+			reply = mutate(rt, reply)
+		}
+		form := forms[i]
+		if rapid.IntRange(0, 3).Draw(rt, "otherForm") == 0 {
+			form = uint8(rapid.IntRange(0, 7).Draw(rt, "form"))
+		}
+		return originOp(rapid.SampledFrom([]string{"http/tcp", "http/tcp", "httpauth/tcp"}).Draw(rt, "listener"), form, reply,
+			rapid.SampledFrom([]string{"close", "half", "half", "rst"}).Draw(rt, "close"))
 	}
 	wellFormed := rapid.IntRange(0, 9).Draw(rt, "wellFormed") < 3
 	switch kind {
@@ -1299,6 +1446,21 @@ func genOp(rt *rapid.T) svcOp {
 			d = cat([]byte{0, 0, 0}, d)
 		}
 		op.Data = []string{hex.EncodeToString(d), hex.EncodeToString(d)}
+		if which < 2 && rapid.IntRange(0, 1).Draw(rt, "seq") == 0 {
+			// round 6: genuine replies alternating with 0..8-byte datagrams into the session's one receive buffer
+			shorts := svcShorts(rapid.IntRange(0, 10).Draw(rt, "shortOff"), 11)
+			for i := rapid.IntRange(0, 6).Draw(rt, "nRandShorts"); i > 0; i-- {
+				shorts = append(shorts, rapid.SliceOfN(rapid.Byte(), 0, 8).Draw(rt, "randShort"))
+			}
+			src := socksAddrIP(rapid.SampledFrom([]netip.Addr{netip.MustParseAddr("127.0.0.1"), netip.MustParseAddr("2001:db8::7"), netip.MustParseAddr("::ffff:10.0.0.1")}).Draw(rt, "replySrc"), rapid.SampledFrom([]uint16{0, 53, 65535}).Draw(rt, "replyPort"))
+			if which == 0 {
+				op.ReplyMode, op.Reply = "assoc-seq", hex.EncodeToString(seqReply("s5", src, shorts))
+			} else {
+				op.ReplyMode, op.Reply = "seq", hex.EncodeToString(seqReply("none", src, shorts))
+			}
+			op.Note = []string{"evil-s5", "evil-none"}[which] + "/seq"
+			return op
+		}
 		switch which {
 		case 0:
 			if rapid.Bool().Draw(rt, "assocOK") {
@@ -1392,11 +1554,23 @@ func executePlan(t failer, env *svcEnv, plan svcPlan) {
 			labels = append(labels, "udp-batch:no")
 		}
 		if consulted {
-			if op.Kind == "dns" {
+			switch op.Kind {
+			case "dns":
 				labels = append(labels, "dns-consulted")
-			} else {
+			case "http-origin":
+				labels = append(labels, "origin-consulted", "origin-req:"+op.Note)
+				for _, c := range originClasses(int(op.Sel&7), unhex(op.Reply)) {
+					labels = append(labels, "origin:"+c)
+				}
+			default:
 				labels = append(labels, "upstream-consulted")
 			}
+		}
+		if op.Kind == "trunc" && len(op.Shorts) > 0 {
+			labels = append(labels, "trunc:with-shorts")
+		}
+		if strings.HasSuffix(op.ReplyMode, "seq") && consulted {
+			labels = append(labels, "via-udp:reply-seq")
 		}
 		nontrivial := reached && (consulted || op.Kind == "tcp" || op.Kind == "udp" || op.Kind == "flood" || op.Kind == "trunc")
 		if op.Kind == "flood" {
@@ -1553,4 +1727,68 @@ func TestServiceExtremeIDs(t *testing.T) {
 		plan.Ops = append(plan.Ops, truncOp(l, uint64(9000+i), 0, target), truncOp(l, uint64(9100+i), 1<<32, target))
 	}
 	executePlan(t, env, plan)
+}
+
+// TestServiceOriginAndShorts (round 6) is the deterministic service-level form of two input classes:
+//
+//  1. hostile origin replies to plain-HTTP proxying: through both HTTP proxy listeners (plain and basic auth) one request per
+//     reply class of the gap list (the first seed of originSeeds that shows the class), answered by the harness-owned origin the
+//     request is routed to (default route, direct client); client side closed normally or half-closed right after the request;
+//  2. datagrams of 0..8 bytes on reused buffers: every plain-text UDP listener (socks5 / none / direct, both batch modes) gets
+//     genuine datagrams of one session alternating with short ones on the same socket (the listener's pooled receive buffers
+//     then hold valid packets), and the socks5 / none upstream clients get genuine replies alternating with short ones from the
+//     hostile upstream into the session's single downlink buffer.
+//
+// After every operation the canary tunnel and one exchange through every UDP listener must still work.
+func TestServiceOriginAndShorts(t *testing.T) {
+	env, err := startService(!ev.IsKnown(prop, sigRouterPort0))
+	if err != nil {
+		t.Fatalf("harness: %v", err)
+	}
+	defer env.stop(t)
+	if err := env.canaryFull(); err != nil {
+		t.Fatalf("SIG=%s VERIF-VIOLATION before the plan: %v", canarySig(err), err)
+	}
+	plan := svcPlan{Bitmap: env.bitmap}
+	forms, origins := originSeeds()
+	covered := map[string]bool{}
+	n := 0
+	for i := range origins {
+		if len(origins[i]) > 20000 {
+			continue
+		}
+		fresh := false
+		for _, c := range originClasses(int(forms[i]), origins[i]) {
+			if !covered[c] && !strings.HasPrefix(c, "status:2") && !strings.HasPrefix(c, "status:3") {
+				fresh = true
+			}
+			covered[c] = true
+		}
+		if !fresh && i >= 8 {
+			continue
+		}
+		plan.Ops = append(plan.Ops, originOp([]string{"http/tcp", "httpauth/tcp"}[n%2], forms[i], origins[i], []string{"half", "half", "close"}[n%3]))
+		n++
+	}
+	echo := socksAddrIP(netip.MustParseAddr("127.0.0.1"), uint16(env.echoUDP.LocalAddr().(*net.UDPAddr).Port))
+	for i, l := range []string{"s5/udp", "s5/udpmm", "none/udp", "none/udpmm", "direct/udp", "direct/udpmm"} {
+		op := truncOp(l, 0, 0, echo)
+		op.Shorts = hexAll(svcShorts(i, 5))
+		plan.Ops = append(plan.Ops, op)
+	}
+	for i, l := range []string{"s5/udp", "none/udpmm", "none/udp", "s5/udpmm"} {
+		which := i % 2 // evil-s5 (UDP ASSOCIATE, then datagrams) | evil-none
+		port := []uint16{portEvilS5, portEvilNone}[which]
+		d := cat(socksAddrIP(netip.MustParseAddr("127.0.0.1"), port), []byte("hello upstream"))
+		if strings.HasPrefix(l, "s5") {
+			d = cat([]byte{0, 0, 0}, d)
+		}
+		src := socksAddrIP(netip.MustParseAddr([]string{"127.0.0.1", "2001:db8::7"}[i/2]), 53)
+		op := svcOp{Kind: "via-udp", Listener: l, Build: "raw", Data: []string{hex.EncodeToString(d), hex.EncodeToString(d)}, Note: []string{"evil-s5", "evil-none"}[which] + "/seq"}
+		op.ReplyMode = []string{"assoc-seq", "seq"}[which]
+		op.Reply = hex.EncodeToString(seqReply([]string{"s5", "none"}[which], src, svcShorts(i, 7)))
+		plan.Ops = append(plan.Ops, op)
+	}
+	executePlan(t, env, plan)
+	recSvc.Extra("origin_ops", n)
 }
